@@ -2,7 +2,7 @@
 //! return a zero-probability category.
 
 use crate::engine::num::R;
-use crate::engine::xo::{rng_f32_k, rng_f64_k, F32_DEN, F64_DEN};
+use super::common::Fl;
 use crate::engine::{bx, CheckResult, Cov, Ctx, Fail};
 use crate::ensure;
 use mini_mcmc::distributions::{Categorical, Discrete, Target};
@@ -74,46 +74,6 @@ pub fn strategy() -> BoxedStrategy<Case> {
             salt,
             oob,
         }))
-}
-
-trait Fl:
-    num_traits::Float + std::ops::AddAssign + std::fmt::Debug + Copy + Send + Sync + 'static
-{
-    const BITS: u32;
-    fn of(x: f64) -> Self;
-    fn f(self) -> f64;
-    fn crafted(k: u64, salt: u64) -> SmallRng;
-    fn den() -> f64;
-}
-impl Fl for f32 {
-    const BITS: u32 = 24;
-    fn of(x: f64) -> f32 {
-        x as f32
-    }
-    fn f(self) -> f64 {
-        self as f64
-    }
-    fn crafted(k: u64, salt: u64) -> SmallRng {
-        rng_f32_k(k, salt)
-    }
-    fn den() -> f64 {
-        F32_DEN
-    }
-}
-impl Fl for f64 {
-    const BITS: u32 = 53;
-    fn of(x: f64) -> f64 {
-        x
-    }
-    fn f(self) -> f64 {
-        self
-    }
-    fn crafted(k: u64, salt: u64) -> SmallRng {
-        rng_f64_k(k, salt)
-    }
-    fn den() -> f64 {
-        F64_DEN
-    }
 }
 
 /// validity of the stored probabilities and of logp
